@@ -28,12 +28,20 @@ type Project struct {
 	Files   map[string]string `json:"files"` // absolute path -> base64 content
 	Dirs    []string          `json:"dirs,omitempty"`
 	Special []string          `json:"special,omitempty"` // files that report size 0 to stat although they have content (FIFO, /proc-like)
+	Links   map[string]string `json:"links,omitempty"`   // symbolic links: link path -> target path (both absolute, inside the tree)
 	Root    string            `json:"root"`              // path handed to the library (absolute, or relative to Cwd)
 	Cwd     string            `json:"cwd,omitempty"`     // simulated working directory
 	Name    string            `json:"name,omitempty"`
 }
 
 func (p *Project) content(path string) []byte {
+	for hops := 0; hops < 8; hops++ {
+		t, ok := p.Links[path]
+		if !ok {
+			break
+		}
+		path = t
+	}
 	b, _ := base64.StdEncoding.DecodeString(p.Files[path])
 	return b
 }
@@ -53,6 +61,12 @@ func (p *Project) clone() Project {
 	}
 	q.Dirs = append([]string(nil), p.Dirs...)
 	q.Special = append([]string(nil), p.Special...)
+	if p.Links != nil {
+		q.Links = map[string]string{}
+		for k, v := range p.Links {
+			q.Links[k] = v
+		}
+	}
 	return q
 }
 
@@ -211,7 +225,7 @@ type Env struct {
 	ReuseInput bool `json:"reuse_input,omitempty"`
 	// GCEvery: collect garbage every this many steps (0: never forced).
 	GCEvery int `json:"gc_every,omitempty"`
-	Slack     int  `json:"slack,omitempty"` // spare capacity of the root content handed to kit.NewJApiFromFile (files read through the disk get os.ReadFile's capacity)
+	Slack   int `json:"slack,omitempty"` // spare capacity of the root content handed to kit.NewJApiFromFile (files read through the disk get os.ReadFile's capacity)
 }
 
 // Case is everything needed to repeat one simulated execution exactly.
@@ -380,6 +394,12 @@ func mountProject(p *Project, env Env, plan []simrt.PlannedFault) *simrt.Disk {
 	for _, dir := range p.Dirs {
 		d.AddDir(dir)
 	}
+	for l, t := range p.Links {
+		if d.Links == nil {
+			d.Links = map[string]string{}
+		}
+		d.Links[filepath.Clean(l)] = filepath.Clean(t)
+	}
 	for _, sp := range p.Special {
 		if d.Special == nil {
 			d.Special = map[string]int64{}
@@ -498,6 +518,7 @@ func runLibrary(root string, rootContent []byte, o Opts) (res Result) {
 // sharedRootBuffer, if set, makes successive executions use one and the same root buffer: the
 // first one fills it, the later ones hand it to the library as it then is.
 var sharedRootBuffer *[]byte
+var sharedRootFile *schemafs.File
 
 // lastPasteDepth: number of nested PASTE expansions on the stack when the step budget ran out.
 var lastPasteDepth int
@@ -513,8 +534,8 @@ var afterCreate func()
 var curReadOrder int
 
 // readOrders: the calls a caller makes on an accepted JApi, in order (j ToJson, i ToJsonIndent,
-// t Title). A leading T asks for the title before validation.
-var readOrders = []string{"jit", "tji", "itj", "Tjit", "jtji", "Titj", "tij"}
+// t Title). Leading capitals are the same calls made before validation (their answers are dropped).
+var readOrders = []string{"jit", "tji", "itj", "Tjit", "jtji", "Titj", "tij", "Jjit", "Iitj", "TIJtij"}
 
 // executeWith is execute for option values built by the caller (so that one option value
 // can be shared between several JApi values).
@@ -567,7 +588,16 @@ func runLibraryWith(root string, rootContent []byte, options []core.Option, entr
 	}()
 	var j kit.JApi
 	if entry == "file" {
-		j = kit.NewJApiFromFile(schemafs.NewFile(root, rootContent), options...)
+		file := schemafs.NewFile(root, rootContent)
+		if sharedRootBuffer != nil {
+			// ... and the very same file object
+			if sharedRootFile == nil {
+				sharedRootFile = file
+			} else {
+				file = sharedRootFile
+			}
+		}
+		j = kit.NewJApiFromFile(file, options...)
 	} else {
 		var err error
 		j, err = kit.NewJapi(root, options...)
@@ -583,9 +613,16 @@ func runLibraryWith(root string, rootContent []byte, options []core.Option, entr
 	if curReadOrder > 0 && curReadOrder < len(readOrders) {
 		order = readOrders[curReadOrder]
 	}
-	if order[0] == 'T' {
-		stage = "title-before-validate"
-		_ = j.Title()
+	for len(order) > 0 && order[0] >= 'A' && order[0] <= 'Z' {
+		stage = "read-before-validate"
+		switch order[0] {
+		case 'T':
+			_ = j.Title()
+		case 'J':
+			_, _ = j.ToJson()
+		case 'I':
+			_, _ = j.ToJsonIndent()
+		}
 		order = order[1:]
 	}
 	stage = "validate"
@@ -893,3 +930,29 @@ func notePanics(res *Result, panics []interface{}) {
 // isReadOp: does this simulated file-system operation deliver the content of a file?
 // (os.ReadFile is logged as "readfile", os.Open/os.OpenFile as "open": a tree may use either.)
 func isReadOp(op string) bool { return op == "readfile" || op == "open" }
+
+// linkOneFile turns one included file of the project into a symbolic link to its content, which
+// moves to a sibling name: every call that follows links sees the same project.
+func linkOneFile(p *Project, r *rng) bool {
+	var inc []string
+	for _, f := range sortedKeys(p.Files) {
+		if f != p.absRoot() {
+			inc = append(inc, f)
+		}
+	}
+	if len(inc) == 0 {
+		return false
+	}
+	f := inc[r.n(len(inc))]
+	target := filepath.Join(filepath.Dir(f), "real_"+filepath.Base(f))
+	if _, used := p.Files[target]; used {
+		return false
+	}
+	p.Files[target] = p.Files[f]
+	delete(p.Files, f)
+	if p.Links == nil {
+		p.Links = map[string]string{}
+	}
+	p.Links[f] = target
+	return true
+}
